@@ -301,6 +301,10 @@ func (fc *FuncCtx) execTypeSwitch(x *ast.TypeSwitchStmt, st *St, c ctl) {
 	if st.dead {
 		return
 	}
+	if v.Sort.Kind == KUnint && v.Sort.Name == "Any" {
+		fc.execTypeSwitchAny(x, v, st, c)
+		return
+	}
 	if v.Sort.Kind != KData || fc.Sorts.dts[v.Sort.Name] == nil || !fc.Sorts.dts[v.Sort.Name].IsUnion {
 		fc.unsupported(st, "type switch on a non-union value", fc.pos(x))
 		return
@@ -1332,4 +1336,62 @@ func isMapIndex(fc *FuncCtx, e ast.Expr) bool {
 	}
 	_, isMap := fc.typeOf(ie.X).Underlying().(*types.Map)
 	return isMap
+}
+
+// execTypeSwitchAny: a type switch on an interface value outside the union encoding.  The dynamic
+// type tests are uninterpreted predicates istype_<T>(v); the bound variable is unbox_<T>(v).
+func (fc *FuncCtx) execTypeSwitchAny(x *ast.TypeSwitchStmt, v Term, st *St, c ctl) {
+	inner := c
+	inner.brk = c.next
+	var def *ast.CaseClause
+	var matched []Term
+	for _, s := range x.Body.List {
+		cc := s.(*ast.CaseClause)
+		if cc.List == nil {
+			def = cc
+			continue
+		}
+		var conds []Term
+		var single types.Type
+		for _, te := range cc.List {
+			t := fc.typeOf(te)
+			if id, ok := te.(*ast.Ident); ok && id.Name == "nil" {
+				conds = append(conds, Eq(v, fc.zeroOfSort(v.Sort, nil)))
+				continue
+			}
+			fn := "istype_" + typeKeyName(t)
+			fc.declareFun(fn, []*Sort{v.Sort}, SBool)
+			conds = append(conds, And(App(SBool, fn, v), Not(Eq(v, fc.zeroOfSort(v.Sort, nil)))))
+			single = t
+		}
+		cond := And(Or(conds...), Not(Or(matched...)))
+		matched = append(matched, Or(conds...))
+		s1 := st.clone()
+		s1.assume(cond)
+		if obj := fc.info().Implicits[cc]; obj != nil {
+			if len(cc.List) == 1 && single != nil {
+				so := fc.sortOf(single)
+				if so.Kind == KUnint && so.Name == "Any" {
+					s1.vars[obj] = v
+				} else {
+					fn := "unbox_" + mangle(so.SMT())
+					fc.declareFun(fn, []*Sort{v.Sort}, so)
+					s1.vars[obj] = App(so, fn, v)
+				}
+			} else {
+				s1.vars[obj] = v
+			}
+		}
+		fc.execStmts(cc.Body, 0, s1, inner)
+	}
+	s2 := st.clone()
+	s2.assume(Not(Or(matched...)))
+	if def != nil {
+		if obj := fc.info().Implicits[def]; obj != nil {
+			s2.vars[obj] = v
+		}
+		fc.execStmts(def.Body, 0, s2, inner)
+	} else {
+		c.next(s2)
+	}
 }
